@@ -4,7 +4,7 @@
    against the real Part after every operation; Inv / valid_op / abs / spec_* are in Model/C01_Spec.v;
    ct_* (Gen/C01_ClassTree.v) is the TimedObject class tree reflected from partitura.score on every run. *)
 From PV Require Import Lib.Base Gen.C01_ClassTree Model.C01 Model.C01_Tree Model.C01_Spec Model.C01_Idx Model.C01_Dict
-  Model.C01_Hist Proofs.C01_tree Proofs.C01_inv Proofs.C01_main Proofs.C01_query Proofs.C01_idx Proofs.C01_dict Proofs.C01_hist.
+  Model.C01_Hist Model.C01_QMap Model.C01_Args Proofs.C01_tree Proofs.C01_inv Proofs.C01_main Proofs.C01_query Proofs.C01_idx Proofs.C01_dict Proofs.C01_hist Proofs.C01_qmap Proofs.C01_args.
 From Coq Require Import Sorting.Sorted Sorting.Permutation.
 
 (* ------------------------------------------------------------------ O1: the invariant, every reachable state *)
@@ -330,6 +330,115 @@ Theorem dict_nontrivial :
   dpoints (devents dinit dict_ex) = [] /\ points (fevents (init 1) dict_ex) = [].
 Proof. exact dict_nontrivial_lemma. Qed.
 Print Assumptions dict_nontrivial.
+
+(* ------------------------------------------------------------------ the read paths of the quarter table as coded (Model/C01_QMap.v) *)
+(* Part.quarter_duration_map -- lists doubled when there is one entry, scipy's interp1d(kind="previous"): binary search
+   on the shifted change times, clip(1, len), y[idx - 1], fill values (y[0], y[-1]) -- answers, for EVERY strictly
+   increasing non-empty table and EVERY integer time (before the first change and beyond the last one included), the
+   duration in force (qd_at: the scan the part-level models use for the quarter of a point) *)
+Theorem qmap_code_in_force : forall tab lo, tab <> [] -> tab_incr lo tab ->
+  forall s, qmap_code tab s = Some (qd_at tab s).
+Proof. exact qmap_code_in_force_lemma. Qed.
+Print Assumptions qmap_code_in_force.
+
+(* ... hence after every history (rejected calls included) the map the code builds never raises and is the duration in force *)
+Theorem qmap_history : forall q0 ops, mixed_run (init q0) ops ->
+  forall s, qmap_code (qtab (run (init q0) ops)) s = Some (qd_at (qtab (run (init q0) ops)) s).
+Proof. exact qmap_history_lemma. Qed.
+Print Assumptions qmap_history.
+
+(* "setting a quarter duration at t makes it the duration in force from t up to the next later change and nothing
+   else", stated on what quarter_duration_map returns before and after the call *)
+Theorem qmap_set_qd : forall p t q, InvW p -> 0 <= t -> forall s, 0 <= s ->
+  qmap_code (qtab (set_quarter_duration p t q)) s =
+  if in_span t (next_change t (qtab p)) s then Some q else qmap_code (qtab p) s.
+Proof. exact qmap_set_qd_lemma. Qed.
+Print Assumptions qmap_set_qd.
+
+(* the statement discriminates: with fill_value=(y[0], y[0]) the answer beyond the last change is wrong, with a search
+   on the unshifted times the answer AT a change is the previous duration *)
+Theorem qmap_variants_refuted :
+  qmap_code [(0, 1); (4, 2)] 7 = Some 2 /\ qmap_fill_first [(0, 1); (4, 2)] 7 = Some 1 /\
+  qmap_code [(0, 1); (4, 2)] 4 = Some 2 /\ qmap_unshifted [(0, 1); (4, 2)] 4 = Some 1 /\
+  qd_at [(0, 1); (4, 2)] 7 = 2 /\ qd_at [(0, 1); (4, 2)] 4 = 2.
+Proof. exact qmap_refuted_lemma. Qed.
+Print Assumptions qmap_variants_refuted.
+
+Theorem qmap_nontrivial :
+  tab_incr (-1) [(0, 1); (4, 2); (9, 1)] /\
+  map (qmap_code [(0, 1); (4, 2); (9, 1)]) [-3; 0; 3; 4; 8; 9; 1000] = map Some [1; 1; 1; 2; 2; 1; 1] /\
+  map (qmap_code [(0, 5)]) [-1; 0; 7] = map Some [5; 5; 5].
+Proof. exact qmap_nontrivial_lemma. Qed.
+Print Assumptions qmap_nontrivial.
+
+(* Part.quarter_durations(start, end) (two masks, each under `is not None`): exactly the entries of the table in the
+   half-open window, in strictly increasing time order, each listing the duration the map answers at its time;
+   without bounds the whole table *)
+Theorem quarter_durations_spec : forall tab lo a b, tab <> [] -> tab_incr lo tab ->
+  (forall t q, In (t, q) (qdur_code tab a b) <-> In (t, q) tab /\ in_range a b t) /\
+  StronglySorted Z.lt (map fst (qdur_code tab a b)) /\
+  (forall t q, In (t, q) (qdur_code tab a b) -> qmap_code tab t = Some q) /\
+  qdur_code tab None None = tab.
+Proof. exact qdur_spec_lemma. Qed.
+Print Assumptions quarter_durations_spec.
+
+(* the code-level function is the query of the part-level models (the one the lock-step correspondence compares) *)
+Theorem quarter_durations_code_model : forall p a b, qdur_code (qtab p) a b = quarter_durations p a b.
+Proof. exact qdur_code_model. Qed.
+Print Assumptions quarter_durations_code_model.
+
+(* with the truthiness test `if end:` the bound 0 is treated as omitted: the window [0, 0) returns the whole table *)
+Theorem quarter_durations_truthy_refuted :
+  qdur_code [(0, 1); (4, 2)] (Some 0) (Some 0) = [] /\ qdur_truthy [(0, 1); (4, 2)] (Some 0) (Some 0) = [(0, 1); (4, 2)] /\
+  ~ in_range (Some 0) (Some 0) 4.
+Proof. exact qdur_truthy_refuted_lemma. Qed.
+Print Assumptions quarter_durations_truthy_refuted.
+
+(* ------------------------------------------------------------------ the argument glue of Part.iter_all as coded (Model/C01_Args.v) *)
+(* whatever kind each bound has (None / a number wrapped into a TimePoint / a TimePoint object), whatever the mode value
+   (anything but "ending" means "starting") and with cls None meaning "object with subclasses", the call -- the `is None`
+   tests, the binary searches and the slice -- is the list-level iter_all of the half-open window *)
+Theorem iter_all_args_eq : forall p c a b sub m, InvW p ->
+  iter_all_args p c a b sub m = iter_all p c (b_opt a) (b_opt b) (sub_eff c sub) (mode_side m).
+Proof. exact iter_all_args_eq_lemma. Qed.
+Print Assumptions iter_all_args_eq.
+
+(* ... hence returns precisely the matching registered objects of the window, each once, in time order *)
+Theorem iter_all_args_spec : forall p c a b sub m, InvW p ->
+  (forall t o, In (t, o) (iter_all_args p c a b sub m) <->
+               oref (mode_side m) p o = Some t /\ in_range (b_opt a) (b_opt b) t /\ cls_match c (sub_eff c sub) o) /\
+  NoDup (iter_all_args p c a b sub m) /\
+  StronglySorted Z.le (map fst (iter_all_args p c a b sub m)).
+Proof. exact iter_all_args_spec_lemma. Qed.
+Print Assumptions iter_all_args_spec.
+
+(* ... after every history (rejected calls included) *)
+Theorem iter_all_args_history : forall q0 ops c a b sub m, mixed_run (init q0) ops ->
+  let p := run (init q0) ops in
+  forall t o, In (t, o) (iter_all_args p c a b sub m) <->
+              oref (mode_side m) p o = Some t /\ in_range (b_opt a) (b_opt b) t /\ cls_match c (sub_eff c sub) o.
+Proof. exact iter_all_args_history_lemma. Qed.
+Print Assumptions iter_all_args_history.
+
+(* the statement discriminates: with the truthiness test (`if end:`) the NUMBER 0 given as end bound is treated as
+   omitted and the window [0, 0) returns everything (a TimePoint object at 0 is still honoured) *)
+Theorem iter_all_args_truthy_refuted :
+  let p := run (init 1) args_ex_ops in
+  mixed_run (init 1) args_ex_ops /\
+  iter_all_args p None (BNum 0) (BNum 0) false MStarting = [] /\
+  iter_all_args_truthy p None (BNum 0) (BNum 0) false MStarting = [(0, (0, 1)); (3, (0, 0))] /\
+  iter_all_args_truthy p None (BTp 0) (BTp 0) false MStarting = [] /\
+  ~ in_range (b_opt (BNum 0)) (b_opt (BNum 0)) 3.
+Proof. exact iter_all_args_truthy_refuted_lemma. Qed.
+Print Assumptions iter_all_args_truthy_refuted.
+
+Theorem iter_all_args_nontrivial :
+  let p := run (init 1) args_ex_ops in
+  iter_all_args p None BNone BNone false MOther = [(0, (0, 1)); (3, (0, 0))] /\
+  iter_all_args p (Some 0) (BTp 3) (BNum 6) false MEnding = [(3, (0, 1)); (5, (0, 0))] /\
+  iter_all_args p (Some 0) (BNum 1) BNone false MStarting = [(3, (0, 0))].
+Proof. exact iter_all_args_nontrivial_lemma. Qed.
+Print Assumptions iter_all_args_nontrivial.
 
 (* ------------------------------------------------------------------ the hypotheses are satisfiable *)
 (* a reachable 4-point part with shared points, a replaced quarter duration and a removal meets Inv *)
